@@ -76,11 +76,13 @@ pub fn permissive_date_to_serial_number(day: i32, month: i32, year: i32) -> Resu
     date = {
         let month_diff = month - 1;
         let abs_month = month_diff.unsigned_abs();
-        if month_diff <= 0 {
-            date = date - Months::new(abs_month);
+        // (the checked forms: chrono's operators panic outside its year range)
+        date = if month_diff <= 0 {
+            date.checked_sub_months(Months::new(abs_month))
         } else {
-            date = date + Months::new(abs_month);
+            date.checked_add_months(Months::new(abs_month))
         }
+        .ok_or_else(|| DATE_OUT_OF_RANGE_MESSAGE.to_string())?;
         if !is_date_within_range(date) {
             return Err(DATE_OUT_OF_RANGE_MESSAGE.to_string());
         }
@@ -90,11 +92,12 @@ pub fn permissive_date_to_serial_number(day: i32, month: i32, year: i32) -> Resu
     date = {
         let day_diff = day - 1;
         let abs_day = day_diff.unsigned_abs() as u64;
-        if day_diff <= 0 {
-            date = date - Days::new(abs_day);
+        date = if day_diff <= 0 {
+            date.checked_sub_days(Days::new(abs_day))
         } else {
-            date = date + Days::new(abs_day);
+            date.checked_add_days(Days::new(abs_day))
         }
+        .ok_or_else(|| DATE_OUT_OF_RANGE_MESSAGE.to_string())?;
         if !is_date_within_range(date) {
             return Err(DATE_OUT_OF_RANGE_MESSAGE.to_string());
         }
